@@ -71,6 +71,14 @@ Definition helper_model (c : list tclass * list nat * list (str * value) * cfgda
                 out.append(dict(classes=[up, down], vals={'x': 1}, real=[1], by_class=by_class, drop_mock=False, single=single))
                 out.append(dict(classes=[up, down, deep], vals={'x': 1, 'y': 3}, real=[2], by_class=by_class, drop_mock=False,
                                 single=single))
+        # a parameter read from another config key than its name, while a different task's parameter bears that name
+        pa = dict(K(0, 'Alpha', params=[P('x')]), name='alpha')
+        pb = dict(K(1, 'Beta', params=[P('x', cfg='beta_x', default=[5])], meta_inputs=[{'cls': 0}]), name='beta')
+        pc = dict(K(1, 'Gamma', params=[P('x', cfg='gamma_x')], meta_inputs=[{'cls': 0}]), name='gamma')
+        for real, vals, cl in (([0, 1], {'x': 1}, [pa, pb]), ([1], {'x': 1}, [pa, pb]), ([0, 1], {'x': 1, 'beta_x': 2}, [pa, pb]),
+                               ([0, 1], {'x': 1}, [pa, pc])):
+            for single in (True, False):
+                out.append(dict(classes=cl, vals=vals, real=real, by_class=False, drop_mock=False, single=single))
         return out
 
     def gen(self, rng, tier):
